@@ -430,6 +430,11 @@ func (fv *FuncVC) evalFuncCall(call *ast.CallExpr, f *types.Func, st *State) []V
 		return out
 	}
 	recv, args := fv.evalArgs(call, f, st)
+	// 0. method of a repository interface declared pure (`//@ puremethod I.M`): an uninterpreted function of the receiver
+	if key, ok := fv.pureMethodKey(f); ok {
+		fv.usedExterns["puremethod "+key+": every implementation is assumed to be a pure function of the node"] = true
+		return fv.pureApp(call, f, "im$"+key, recv, args, st)
+	}
 	// 1. function of the repository with a contract: modular call
 	if fi := fv.w.ByObj[f.Origin()]; fi != nil {
 		if fi.Contract != nil && (fv.mode == "full" || fi.Contract.Pure) {
@@ -648,6 +653,31 @@ func (fv *FuncVC) resolveHeapName(m string) (Sort, bool) {
 		return arraySort(SRef, arraySort(SInt, Sort(strings.TrimPrefix(m, "H$")))), true
 	case strings.HasPrefix(m, "P$"):
 		return arraySort(SRef, Sort(strings.TrimPrefix(m, "P$"))), true
+	case strings.HasPrefix(m, "F$"):
+		// field heap named explicitly: find the struct type and the field
+		for _, pk := range fv.w.All {
+			if pk.Types == nil {
+				continue
+			}
+			sc := pk.Types.Scope()
+			for _, n := range sc.Names() {
+				tn, ok := sc.Lookup(n).(*types.TypeName)
+				if !ok {
+					continue
+				}
+				stt, ok := tn.Type().Underlying().(*types.Struct)
+				if !ok || !strings.HasPrefix(m, "F$"+sanitize(pk.PkgPath+"."+n)+".") {
+					continue
+				}
+				ss := fv.th.sortOf(tn.Type())
+				for i := 0; i < stt.NumFields(); i++ {
+					if fieldHeap(ss, stt.Field(i).Name()) == m {
+						return arraySort(SRef, fv.th.sortOf(stt.Field(i).Type())), true
+					}
+				}
+			}
+		}
+		return "", false
 	case m == "G$lasterr":
 		return arraySort(SRef, SRef), true
 	case strings.HasPrefix(m, "G$"):
@@ -846,4 +876,22 @@ func (fv *FuncVC) havocLoc(st *State, loc modLoc) {
 	}
 	inner := fv.th.freshConst("mod$"+sanitize(loc.heap), innerSort(fv.heapSort[loc.heap]))
 	fv.setHeap(st, loc.heap, sx("store", fv.getHeap(st, loc.heap), loc.ref, inner))
+}
+
+// pureMethodKey: f is a method of an interface of the repository declared `//@ puremethod I.M`.
+func (fv *FuncVC) pureMethodKey(f *types.Func) (string, bool) {
+	sig, ok := f.Type().(*types.Signature)
+	if !ok || sig.Recv() == nil || f.Pkg() == nil {
+		return "", false
+	}
+	rt := sig.Recv().Type()
+	if !types.IsInterface(rt) {
+		return "", false
+	}
+	n, ok := types.Unalias(rt).(*types.Named)
+	if !ok {
+		return "", false
+	}
+	key := f.Pkg().Path() + "." + n.Obj().Name() + "." + f.Name()
+	return key, fv.w.PureMethods[key]
 }
